@@ -5,7 +5,7 @@ import re
 import time
 
 import common
-from common import q_bool, q_list, q_opt
+from common import q_bool, q_list, q_opt, q_str
 import cli_driver
 from cli_driver import run_cli, snapshot, build_tree
 from sandbox import Sandbox
@@ -165,6 +165,119 @@ def token_sequences(chk, stats, quick):
     return n
 
 
+def compile_tie(chk, rng, stats, quick):
+    """Pipe/FrontCompile.v: [compile R text] (parser model + registry model + binder model + alias expansion) against the
+    real TemplateCompiler over the FULL registry of the working tree (rows read from each factory's own help line, as C13
+    does) plus user aliases (valid, cyclic, unparsable).  Compared: accepted / rejected, and the error class.  What a
+    tag's own configure() body decides about argument VALUES is an input of the model ([accepts]); a text that the
+    implementation rejects with ConfigurationError while the model accepts is therefore counted, not judged."""
+    import re
+    import c13
+    from common import q_list
+    from tempren.pipeline import build_tag_registry
+    from tempren.template.compiler import TemplateCompiler
+    from tempren.alias import AliasTagFactory
+    ALIASES = {"Shout": "%Upper{%Name()}", "Loop": "%Loop()", "Ping": "%Pong()", "Pong": "p%Ping()", "Broken": "%Upper{"}
+    with impl.quiet_streams():
+        reg = build_tag_registry({}, dict(ALIASES))
+    comp = TemplateCompiler(reg)
+    rows, skipped, fid = [], [], 0
+    for cat in reg.category_map.values():
+        for name, fac in cat.tag_map.items():
+            if isinstance(fac, AliasTagFactory):
+                kind = "(KAlias %s)" % q_str(fac._pattern_text)
+            else:
+                line = fac.configuration_signature.split("\n")[0]
+                rd, why = c13.read_line(line)
+                if rd is None or rd["name"] != name:
+                    skipped.append("%s.%s" % (cat.name, name)); fid += 1
+                    continue
+                kind = "(class_of_reading (%s, %s, %s))" % (q_str(name), c13.q_sig(rd), c13.q_ctx(rd["ctx"]))
+            rows.append("((%s, %s, %d), %s)" % (q_str(cat.name), q_str(name), fid, kind))
+            fid += 1
+    CLASS = {"TemplateSyntaxError": "syntax", "UnknownNameError": "uname", "UnknownCategoryError": "ucat",
+             "AmbiguousNameError": "amb", "ContextMissingError": "ctxmiss", "ContextForbiddenError": "ctxforb",
+             "ConfigurationError": "config"}
+    texts = ["%Nme()", "%Upper{%Nme()}", "%Upper()", "%Name(){x}", "%Name(", "%Upper{%Name()}", "%Name()|%Uper()",
+             "%Name()|%Upper()", "%Upper{%Name()", "%Name()}", "}%Upper{", "%Count(){x}", "%Count(1,2,3,4,5)", "%Count(nope=1)",
+             "%Count(1, start=2)", "%Shout()", "a%Shout()b", "%Shout(1)", "%Shout(){x}", "%Loop()",
+             "%Ping()", "%Broken()", "%Alias.Shout()", "%alias.Shout()", "%Alias.shout()", "%Nope.Name()", "%Core.Name()",
+             "%Text.Name()", "%Upper{%Lower{%Count()}}", "%Upper{%Lower{%Count(x)}}", "%Name()|%Upper()|%Lower()",
+             "%Name()|%Upper()|%Lwer()", "%Name()|%Upper{a}", "plain", "", "%Ext()", "%Dir()", "%Trim{ x }",
+             "%Replace('a','b'){%Name()}", "%Replace('a'){%Name()}", "%Replace{%Name()}", "%Sanitize()", "%Size()", "%Size(){x}",
+             "%Upper{\\}}", "%Upper{\\{}", "%Upper('}'){x}", "% Name()", "%Name(--1)", "%Name()%Name()", "%Name ()",
+             "%Round(2){%Size()}", "%Round(digits=2){1.5}", "%Round(self=1){1}", "%Base.Name()"]
+    all_names = sorted({n for c in reg.category_map.values() for n in c.tag_map})
+    names = ["Name", "Upper", "Lower", "Count", "Ext", "Shout", "Loop", "Ping", "Broken", "Nme", "Core.Name", "Text.Upper", "X.Y", "Trim",
+             "Size", "core.name", "Alias.Shout", "Text.Name"]
+
+    def gen(d):
+        k = rng.random()
+        if d <= 0 or k < 0.25:
+            return rng.choice(["a", "_", "x y", "", "\\{", "é"])
+        n = rng.choice(names) if rng.random() < 0.7 else rng.choice(all_names)
+        args = rng.choice(["()", "()", "()", "(1)", "(a=1)", "", "('s')", "(1, 2)", "(x)", "(width=3)", "(start=2, step=2)"])
+        ctx = rng.choice(["", "", "{" + gen(d - 1) + "}", "{}"])
+        if args == "" and ctx == "":
+            args = "()"
+        t = "%" + n + args + ctx
+        if rng.random() < 0.2:
+            t += "|%" + rng.choice(names) + rng.choice(["()", "()", "(1)"])
+        if rng.random() < 0.3:
+            t = gen(d - 1) + t
+        if rng.random() < 0.05:
+            t = mutate(rng, t)
+        return t
+    texts += [gen(3) for _ in range(500 if quick else 8000)]
+    texts = [t for t in texts if "\n" not in t and "\r" not in t]
+    impl_res = []
+    with impl.quiet_streams():
+        for t in texts:
+            try:
+                comp.compile(t); impl_res.append("ok")
+            except Exception as e:
+                impl_res.append(CLASS.get(type(e).__name__, "other:" + type(e).__name__))
+    prelude = """
+From Tempren Require Tpl.Registry Tpl.Alias.
+Definition rows : list row := %s.
+Definition R := match tagreg_of_rows 40 rows with Some r => r | None => mkTagreg [] [] 0 end.
+Definition code (t : str) : N := match compile R t with
+  | inl _ => 0
+  | inr (TESyntax _) => 1
+  | inr (TEBind e) => 10 + Corr.AliasCorr.exc_code e end.
+""" % q_list(rows, "row")
+    MODEL = {0: "ok", 1: "syntax", 14: "syntax", 15: "config", 16: "ctxmiss", 17: "ctxforb", 18: "uname", 19: "ucat", 20: "amb"}
+    tie = {"rows": len(rows), "rows_skipped": skipped, "texts": len(texts), "agree": {}, "class_differs": 0, "configure_body_refusals": 0}
+    for lo in range(0, len(texts), 600):
+        part = texts[lo:lo + 600]
+        term = "(match tagreg_of_rows 40 rows with Some _ => true | None => false end, map code %s)" % q_list([q_str(t) for t in part], "str")
+        rc, out = common.coq_eval_term(["Tpl.Ast", "Tpl.Visitor", "Tpl.Signature", "Pipe.FrontCompile", "Corr.AliasCorr"], term,
+                                       timeout=900, prelude=prelude)
+        nums = None
+        if rc == 0 and "=" in out and "[" in out:
+            body = out[out.index("="):]
+            if "true" in body[:body.index("[")]:
+                nums = [int(x) for x in re.findall(r"\b(\d+)\b", body[body.index("["):body.rindex("]") + 1])]
+        if nums is None or len(nums) != len(part):
+            chk.proof_failures.append({"what": "coqc on generated texts (Pipe.FrontCompile.compile over the real registry rows)", "log": out[-1500:]})
+            continue
+        for t, i, m in zip(part, impl_res[lo:lo + 600], nums):
+            mm = MODEL.get(m, "?%d" % m)
+            chk.count(("compile-tie", t))
+            if i == "config" and mm == "ok":
+                tie["configure_body_refusals"] += 1
+            elif (i == "ok") != (mm == "ok"):
+                chk.corr_fail("Pipe.FrontCompile.compile vs TemplateCompiler.compile over the working tree's registry (accepted/rejected)",
+                              {"template": t, "implementation": i, "model": mm})
+            elif i != mm:
+                # both reject (exit status 3 either way).  With several faulty tags in one text the class reported is that of
+                # the first one in traversal order, which the model does not claim to reproduce (the classes are C12/C13/C15's)
+                tie["class_differs"] += 1
+            else:
+                tie["agree"][i] = tie["agree"].get(i, 0) + 1
+    stats["compile_tie"] = tie
+
+
 def gen_case(rng):
     mode = rng.choice(["name", "name", "path", "directory"])
     tpl = rng.choice(VALID_NAME)
@@ -246,6 +359,7 @@ def run(chk):
     for m in mism:
         chk.corr_fail("Pipe.Front.main_run vs tempren.cli.main (order of template compilation, exit status of each failure class)", metas[m])
     token_sequences(chk, stats, quick)
+    compile_tie(chk, rng, stats, quick)
     for c in cases[len(FIXED):len(FIXED) + 3]:
         chk.sample({k: c[k] for k in ("mode", "template", "filter", "sort", "mutated") if k in c})
     chk.coverage["rule"] = (
